@@ -73,7 +73,7 @@ def sym_main():
     names = ['x%d' % i for i in U] + ['y%d' % i for i in U]
     bad = 0
     total = 0
-    for name in ('sym_union_diff', 'sym_discard_remove', 'sym_remove_raises', 'sym_worklist', 'sym_dict_groups', 'sym_comprehensions', 'sym_early_exit', 'sym_try_flow'):
+    for name in ('sym_union_diff', 'sym_discard_remove', 'sym_remove_raises', 'sym_worklist', 'sym_dict_groups', 'sym_comprehensions', 'sym_early_exit', 'sym_try_flow', 'sym_iter_stack_dfs', 'sym_reversed_queue', 'sym_getattr_default', 'sym_global_state'):
         fn = getattr(idioms, name)
         nargs = fn.__code__.co_argcount
         see.reset()
@@ -106,6 +106,8 @@ def sym_main():
             if isinstance(v, see.MList):
                 n_ = val_at(v.len, a) if not isinstance(v.len, int) else v.len
                 return [val_at(x, a) for x in v.slots[:n_]]
+            if isinstance(v, see.GSeq):
+                return [val_at(x, a) for g, x in v.entries if g_at(g)]
             if isinstance(v, tuple):
                 return tuple(val_at(x, a) for x in v)
             return v
